@@ -44,7 +44,7 @@ func init() {
 		Rule: "case = (valid LZMA2-only .xz stream from refenc / liblzma / corpus / library writer, source fragmentation plan, Read-length schedule, ReaderConfig.DictCap); each case is read with its DictCap and with DictCap 4096; " +
 			"non-trivial = non-empty content; distinct = distinct scenario digests",
 		Gen: func(r *sim.Rng, tier string, idx int) *RCase {
-			c := &RCase{Stream: genXZStreamRecipe(r, tier, 10), Src: genSrcPlan(r), Reads: genReads(r), PostEOF: genPostEOF(r)}
+			c := &RCase{Stream: genXZStreamRecipe(r, tier, 10), Src: genSrcPlanZ(r), Reads: genReads(r), PostEOF: genPostEOF(r)}
 			c.RDict = sim.Pick(r, []int{4096, 8192, 1 << 16, 1 << 20, 1 << 22})
 			if r.Chance(1, 50) {
 				c.RDict = 0
@@ -107,7 +107,7 @@ func init() {
 		Rule: "case = (valid stream of one of three formats incl. multi-block / multi-chunk / multi-stream, fragmentation plan, Read-length schedule from {0,1,2,3,7,273,4096,remaining,remaining+1,1MiB,...}, reads after EOF); " +
 			"non-trivial = non-empty content; distinct = distinct scenario digests",
 		Gen: func(r *sim.Rng, tier string, idx int) *RCase {
-			c := &RCase{Src: genSrcPlan(r), Reads: genReads(r), PostEOF: genPostEOF(r)}
+			c := &RCase{Src: genSrcPlanZ(r), Reads: genReads(r), PostEOF: genPostEOF(r)}
 			if r.Chance(3, 4) {
 				// bias to interesting schedules
 				c.Reads = genReads(r)
